@@ -13,7 +13,7 @@ line each; table lines `dec`/`unp`/`lzu`/`excl` fill the parameter tables for th
   lzu <method> <outlen> <inhex> <0|1> <outhex>        (lzx_unpack spy)
   excl <namehex> <0|1>                               (libxmp_exclude_match spy)
   gzip <filehex> | arc <limit> <filehex> | arcfs <limit> <filehex> | lzx <limit> <filehex>
-                           → `none` | `some <hex>` | `miss` (model asked a parameter the real run never evaluated)
+                           → `none` | `some <hex>`   (a parameter call the real run never made answers `none`)
   zip <method> <bitflag> <comp> <uncomp> <crc> <tailhex|none> <inflated hex|none>
   bzg <streamcrc8> (<hdrcrc8> <hex>)*   → bzDepack
 -/
@@ -62,13 +62,13 @@ def missMark : Bytes := [0x4d, 0x49, 0x53, 0x53, 0x21, 0x6d, 0x69, 0x73, 0x73]
 def runGate (t : Tabs) (kind : String) (limit : Nat) (f : Bytes) : String :=
   let excl := fun n => (lookupD t.excl n).getD false
   let aenv : ArcEnv := {
-    unpack := fun m b i n => match lookupD t.unp (m, b, n, i) with | some r => r | none => some missMark,
+    unpack := fun m b i n => (lookupD t.unp (m, b, n, i)).getD none,
     excl := excl, limit := limit }
   let lenv : LzxEnv := {
-    unpack := fun m i n => match lookupD t.lzu (m, n, i) with | some r => r | none => some missMark,
+    unpack := fun m i n => (lookupD t.lzu (m, n, i)).getD none,
     excl := excl, limit := limit }
   let r := match kind with
-    | "gzip" => gzipDepack (fun c => match lookupD t.dec c with | some r => r | none => some missMark) f
+    | "gzip" => gzipDepack (fun c => (lookupD t.dec c).getD none) f
     | "arc" => arcDepack aenv f
     | "arcfs" => arcfsDepack aenv f
     | _ => lzxDepack lenv f
